@@ -13,7 +13,10 @@ import (
 	"math/big"
 	"os"
 	"path/filepath"
+	"strconv"
+	"syscall"
 	"testing"
+	"verif.local/ref/sm3ref"
 
 	"github.com/bilibili/smgo/sm2"
 	"pgregory.net/rapid"
@@ -457,4 +460,56 @@ func TestVerif_C13_StateWordCorpus(t *testing.T) {
 			vt.Fail(t, rec, "C13:wrappers:verify", "VerifyZa on such a message: valid signature accepted=%v, with a changed message accepted=%v\nza=%x msg=%x", ok, bad, za, msg)
 		}
 	})
+}
+
+// 32-bit build, thorough tier: a message of 2^28 bytes (bit length 2^31) through SignZa / VerifyZa.
+func TestVerif_C13_LargeMessage32Bit(t *testing.T) {
+	rec := stats.Get("C13", "large-message-32bit")
+	rec.Rule("32-bit build, thorough only: message of 2^28 and 2^28+3 zero bytes (anonymous mapping), drawn za, key and nonce: SignZa equals the reference signature of e = sm3ref(za||msg) (streamed), VerifyZa accepts it. 2 cases, non-trivial (bit length of za||msg at 2^31); distinct by length.")
+	rec.Exhaustive(true)
+	t.Cleanup(stats.FlushAll)
+	if strconv.IntSize != 32 || !vt.Thorough() {
+		rec.Skipped("runs in the thorough tier of the 32-bit (GOARCH=386) unit only")
+		return
+	}
+	if si, _ := vt.Shard(); si != 0 {
+		return
+	}
+	mem, err := syscall.Mmap(-1, 0, 1<<28+4096, syscall.PROT_READ, syscall.MAP_ANON|syscall.MAP_PRIVATE)
+	if err != nil {
+		rec.Skipped("cannot map 256 MiB of zero pages: " + err.Error())
+		return
+	}
+	defer syscall.Munmap(mem)
+	d := new(big.Int).SetBytes(bytes.Repeat([]byte{0x42, 0x17}, 16))
+	d.Mod(d, sm2gen.NM2).Add(d, big.NewInt(1))
+	px, py, _ := sm2gen.Pub(d)
+	za := bytes.Repeat([]byte{0xa7}, 32)
+	stream := bytes.Repeat([]byte{0x31, 0x5c}, 48)
+	for _, n := range []int{1 << 28, 1<<28 + 3} {
+		msg := mem[:n]
+		st := sm3ref.NewStream()
+		st.Write(za)
+		for off := 0; off < n; off += 1 << 20 {
+			end := off + 1<<20
+			if end > n {
+				end = n
+			}
+			st.Write(msg[off:end])
+		}
+		ev := st.Sum()
+		wr, ws, _, _, werr := sm2ref.Sign(d, ev[:], stream)
+		if werr != nil {
+			t.Fatalf("HARNESS: %v", werr)
+		}
+		rec.Enumerated(1, "large-message")
+		r, s, err := sm2.SignZa(newStream(stream), gen.Pad32(d), za, msg)
+		if err != nil || !bytes.Equal(r, gen.Pad32(wr)) || !bytes.Equal(s, gen.Pad32(ws)) {
+			vt.Fail(t, rec, "C13:wrappers:signza", "32-bit build: SignZa over a %d-byte message differs from the signature of e = SM3(za||msg) (err=%v)", n, err)
+			continue
+		}
+		if ok, _ := sm2.VerifyZa(px, py, za, msg, gen.Pad32(wr), gen.Pad32(ws)); !ok {
+			vt.Fail(t, rec, "C13:wrappers:verify", "32-bit build: VerifyZa rejects the reference signature of a %d-byte message", n)
+		}
+	}
 }
